@@ -43,7 +43,8 @@ def build_file(R, pkts, msgs):
             if d != sec:
                 continue
             lines.append("label = %s:unix:App%d:v" % (R.choice(["s", "g"]), R.randrange(4)))
-            lines.append("sig = " + H.rand_http_sig(R, hs))
+            hsig = H.rand_http_sig(R, hs)
+            lines.append("sig = " + (("*" + hsig) if hsig.startswith(":") else hsig))      # (these files are meant to load: no empty version field)
     return lines
 
 
